@@ -190,14 +190,66 @@ def check_case(ctx, case):
             # total least squares: x as observables with small or sizeable errors
             nprng = np.random.default_rng(case['seed'] + 1)
             sx = case['sx']
-            xs = [pe.Obs([xi + sx * nprng.normal(size=60)], ['X%d|r1' % i]) for i, xi in enumerate(x)]
-            [o.gamma_method() for o in xs]
+            if case.get('xdim', 1) == 2:
+                # two abscissa coordinates per point, both with errors: x has shape (2, N)
+                truth = [2.0, 0.4, 0.7]
+                af = lambda a, x: a[0] * anp.exp(-a[1] * x[0]) + a[2] * x[0] * x[1]  # noqa: E731
+                nf = lambda a, x: a[0] * np.exp(-a[1] * x[0]) + a[2] * x[0] * x[1]  # noqa: E731
+                x = np.array([x, nprng.uniform(0.5, 2.0, size=len(x))])
+                yv0 = nf(np.array(truth), x)
+                ys = [pe.Obs([yv0[i] + (0.01 * abs(yv0[i]) + 1e-3) * nprng.normal(size=60)], ['E%d|r1' % (i % max(case['nens'], 1))]) for i in range(x.shape[1])]
+                [o.gamma_method() for o in ys]
+                yv = np.array([o.value for o in ys])
+                dy = np.array([o.dvalue for o in ys])
+                xs = [[pe.Obs([x[c][i] + max(sx, 0.01) * nprng.normal(size=60)], ['X%d_%d|r1' % (c, i)]) for i in range(x.shape[1])] for c in range(2)]
+                [o.gamma_method() for row in xs for o in row]
+                sx = max(sx, 0.01)
+                xflat = [o for row in xs for o in row]
+            else:
+                xs = [pe.Obs([xi + sx * nprng.normal(size=60)], ['X%d|r1' % i]) for i, xi in enumerate(x)]
+                [o.gamma_method() for o in xs]
+                xflat = list(xs)
             try:
                 rt = pe.total_least_squares(xs, ys, af, silent=True, initial_guess=[t * 1.05 for t in truth])
             except Exception as e:
                 probs.append(('violation', 'tls-exception', '%s: %s' % (type(e).__name__, str(e)[:200])))
                 return probs
             [p.gamma_method() for p in rt.fit_parameters]
+            if sx > 1e-7:
+                # sensitivities: implicit-function theorem applied to the stationarity of the documented chi-square
+                # in (p, xhat), with respect to the y AND the x data, at the stationary point
+                import autograd
+                xv_ = np.array([o.value for o in xflat])
+                dx_ = np.array([o.dvalue for o in xflat])
+                npar_ = len(truth)
+                shp = np.shape(x)
+
+                def chi_t(z, dat):
+                    p_, xh = z[:npar_], z[npar_:]
+                    r = (dat[:len(yv)] - af(p_, anp.reshape(xh, shp))) / dy
+                    return anp.sum(r ** 2) + anp.sum(((dat[len(yv):] - xh) / dx_) ** 2)
+                dat0 = np.concatenate([yv, xv_])
+                z = np.concatenate([[q_.value for q_ in rt.fit_parameters], xv_])
+                for _ in range(30):
+                    g_ = autograd.grad(chi_t, 0)(z, dat0)
+                    H_ = autograd.hessian(chi_t, 0)(z, dat0)
+                    st = np.linalg.solve(H_, g_)
+                    z = z - st
+                    if np.max(np.abs(st)) < 1e-14 * max(1.0, np.max(np.abs(z))):
+                        break
+                H_ = autograd.hessian(chi_t, 0)(z, dat0)
+                M_ = autograd.jacobian(autograd.grad(chi_t, 0), 1)(z, dat0)
+                St = -np.linalg.solve(H_, M_)
+                qs_t = [Q.of(o) for o in ys] + [Q.of(o) for o in xflat]
+                for a in range(npar_):
+                    qa = combine(lambda v, a=a: float(z[a]), list(St[a]), qs_t)
+                    dd = compare_q(rt.fit_parameters[a], qa, rtol=2e-5)
+                    dd = [w_ for w_ in dd if not w_.startswith('value') and not w_.startswith('r_value')]
+                    if dd:
+                        probs.append(('violation', 'tls-implicit-function-fluctuations', ['parameter %d' % a] + dd[:3]))
+                        break
+            if case.get('xdim', 1) == 2:
+                return probs
             if sx <= 1e-7:
                 ro = pe.least_squares(np.array([o.value for o in xs]), ys, af, silent=True, initial_guess=[t * 1.05 for t in truth])
                 [p.gamma_method() for p in ro.fit_parameters]
@@ -228,7 +280,7 @@ def check_case(ctx, case):
 def gen_case(ctx):
     rng = ctx.rng
     model = rng.choice(['exp', 'cosh', 'rat', 'exp2', 'exp', 'cosh'])
-    kind = rng.choice(['ls', 'ls', 'ls', 'tls'])
+    kind = rng.choice(['ls', 'ls', 'tls'])
     case = {'seed': rng.getrandbits(28), 'model': model, 'kind': kind, 'npts': rng.randint(7, 11), 'nens': rng.choice([1, 3, 12]),
             'corr': rng.choice([0.0, 0.0, 1.0]), 'method': rng.choice(['LM', 'LM', 'migrad']), 'correlated': rng.random() < 0.3,
             'num_grad': rng.random() < 0.25, 'prior': rng.random() < 0.35, 'prior_i': rng.randrange(4), 'sx': rng.choice([1e-9, 1e-9, 0.01, 0.03])}
@@ -236,6 +288,8 @@ def gen_case(ctx):
         case['nens'] = case['npts']
     if kind == 'tls' and model == 'exp2':
         case['model'] = 'exp'
+    if kind == 'tls' and rng.random() < 0.35:
+        case['xdim'] = 2
     if case['correlated'] and rng.random() < 0.6:
         case['prior'] = True          # priors inside the correlated chi-square, on any parameter index
     if case['correlated'] and case['nens'] != 1:
